@@ -64,6 +64,20 @@ inaccurate quadrature the computed energy can pass through zero, where a relativ
                      unimodal (otherwise 'eqar_true_objective_multimodal', excluded); mech records whether the objective
                      as computed with the quadrature under test is unimodal and whether it contains negative energies
 
+  eigenstrain_ownership  the energy is a function of the object's OWN stiffness / eigenstrain / semi-axes: for two objects that
+                     live at the same time (both fully specified before either is evaluated; eigenstrain eps and k eps in
+                     independently drawn input forms scalar / 3-vector / 3x3) E_B = k^2 E_A (1e-10 U0) and each equals the
+                     energy of the same specification evaluated in isolation before the other object existed (bitwise, same
+                     arithmetic; 1e-12 U0); an object that was never given an eigenstrain has energy exactly 0 while another
+                     object holds one (k = 0 of the quadratic scaling); the energy of a bystander object is unchanged
+                     (1e-12 U0) by setEigenstrain calls on another object
+  eigenstrain_history    re-specification on one object (random histories of 2-5 setEigenstrain calls, scalar -> vector -> tensor
+                     -> vector ...): the energy equals that of a fresh object given only the last specification as an
+                     explicit 3x3 tensor (1e-12 U0; mech: forms of the last two calls and whether the stored tensor
+                     params.eigenstrain equals the last specification); the arrays handed to setEigenstrain are bitwise
+                     unchanged after all later calls (clause 'caller array unmodified': a caller array that is rewritten
+                     changes the eigenstrain the user believes to have set)
+
 Deliberately not asserted (statement silent): the applied-stress variant (strainEnergyEllipsoidWithStress,
 setAppliedStress); the cuboidal approximation; the Voigt ordering convention itself; E-M moduli pair for nu < 0
 (two admissible materials share the pair: counted as 'moduli_pair_ambiguous'); eqAR when both searches end at the
@@ -90,12 +104,14 @@ RULE = ('random parameter sets: matrix {isotropic, cubic aligned, cubic rotated}
         'isotropic, cubic aligned, cubic rotated} x eigenstrain {dilatational, diagonal, full symmetric with shear} x '
         'semi-axes {sphere, needle, plate, triaxial; aspect ratio 1.05-6, 30 % of the spheroids 6-100} x 4 quadratures '
         '(3 shipped orders + injected Gauss-Legendre product rule); plus node-table cases (one per order and the harness rule), modulus-pair bundles, '
-        'tensor-conversion bundles and equilibrium-aspect-ratio cases. An energy case is non-trivial when the Zener '
+        'tensor-conversion bundles, equilibrium-aspect-ratio cases and ownership/history cases (coexisting objects, '
+        're-specification histories of the eigenstrain in all input forms). An energy case is non-trivial when the Zener '
         'ratio of matrix or precipitate differs from 1 by > 5 % or the aspect ratio is > 1.05; the other kinds are '
         'non-trivial when their monitors were evaluated; distinct by the hash of the drawn configuration')
 REQUIRED_MONITORS = ['nonneg', 'size_scaling', 'strain_scaling', 'rank_agree', 'inverse_agree', 'homog_limit',
                      'closed_form_sphere', 'eshelby_textbook', 'rotation_invariance', 'axis_permutation', 'setter_order', 'rotation_formula',
-                     'quad_weights', 'quad_monomials', 'rank_roundtrip', 'moduli_roundtrip', 'eqar_agree']
+                     'quad_weights', 'quad_monomials', 'rank_roundtrip', 'moduli_roundtrip', 'eqar_agree',
+                     'eigenstrain_ownership', 'eigenstrain_history']
 _EF = 'precipitation/parameters/ElasticFactors.py:'
 REACH = [_EF + 'EllipsoidalEnergyDescription.sphInt', _EF + 'EllipsoidalEnergyDescription.Dijkl',
          _EF + 'EllipsoidalEnergyDescription.Sijmn', _EF + 'EllipsoidalEnergyDescription.strainEnergyBohm',
@@ -105,7 +121,7 @@ REACH = [_EF + 'EllipsoidalEnergyDescription.sphInt', _EF + 'EllipsoidalEnergyDe
          _EF + 'EllipsoidalEnergyDescription._ohm_quickInverse', _EF + 'EllipsoidalEnergyDescription._ohm_npinv',
          _EF + 'SphericalEnergyDescription._Khachaturyan', _EF + 'moduliToC', _EF + 'convert2To4rankTensor',
          _EF + 'convert4To2rankTensor', _EF + 'invert4rankTensor', _EF + 'rotateRank4Tensor', _EF + 'rotateRank2Tensor',
-         _EF + 'StrainEnergy.update', _EF + 'StrainEnergy.eqAR_byGR', _EF + 'StrainEnergy.eqAR_bySearch',
+         _EF + 'StrainEnergy.update', _EF + 'StrainEnergy.setEigenstrain', _EF + 'StrainEnergy.eqAR_byGR', _EF + 'StrainEnergy.eqAR_bySearch',
          'precipitation/parameters/LebedevNodes.py:loadPoints']
 MIN_NONTRIVIAL = {'quick': 200, 'thorough': 4000}
 CASE_TIMEOUT = 600
@@ -137,7 +153,7 @@ ORBIT_SIZE = {'A1': 6, 'A2': 12, 'A3': 8, 'B': 24, 'C': 24, 'D': 48}
 
 # ------------------------------------------------------------------------------------------------ plan
 def plan(tier, seed):
-    n = {'quick': (300, 6, 6, 24), 'thorough': (6000, 40, 40, 240)}[tier]
+    n = {'quick': (300, 6, 6, 24, 40), 'thorough': (6000, 40, 40, 240, 600)}[tier]
     cases = []
     for q in QUADS:
         cases.append({'kind': 'nodes', 'quad': q, 'weight': 30.0 if q == 'repo-high' else 10.0})
@@ -149,6 +165,9 @@ def plan(tier, seed):
         cases.append({'kind': 'tensor', 'n': i, 'weight': 1.0})
     for i in range(n[0]):
         cases.append({'kind': 'energy', 'n': i, 'weight': 1.0})
+    # appended last so that the indices (= random streams) of the kinds above stay what they were
+    for i in range(n[4]):
+        cases.append({'kind': 'ownership', 'n': i, 'weight': 0.5})
     return cases
 
 
@@ -910,6 +929,170 @@ def case_eqar(case, R):
     R.set_nontrivial(nt, case_hash({'cfg': cfg, 'gamma': gamma, 'R': Rsph.tolist(), 'shape': shape}))
 
 
+# ------------------------------------------------------------------------------------------------ ownership / history
+FORMS = {'dil': ['scalar', 'vector', 'tensor'], 'diag': ['vector', 'tensor'], 'full': ['tensor']}
+
+
+def _draw_eig(rng, eclass):
+    if eclass == 'dil':
+        return float(rng.uniform(0.002, 0.03) * rng.choice([-1, 1])) * np.eye(3)
+    if eclass == 'diag':
+        return np.diag(rng.uniform(-0.03, 0.03, size=3))
+    m = rng.uniform(-0.03, 0.03, size=(3, 3))
+    return (m + m.T) / 2
+
+
+def _as_form(T, form):
+    """the caller-side object for an eigenstrain tensor T in a given input form (fresh arrays every time)"""
+    if form == 'scalar':
+        return float(T[0, 0])
+    if form == 'vector':
+        return np.array([T[0, 0], T[1, 1], T[2, 2]])
+    return np.array(T, dtype=float)
+
+
+def _new_object(shape, matrix, prec, how):
+    from kawin.precipitation import StrainEnergy
+    se = StrainEnergy('sphere' if shape == 'sphere' else 'ellipsoid')
+    set_stiffness(se, matrix, False, how)
+    if prec is not None:
+        set_stiffness(se, prec, True, how + 1)
+    if shape == 'ellipsoid-gl':
+        set_quad(se.description, 'gl')
+    return se            # 'ellipsoid-default': exactly what a user gets (order 131), nothing injected
+
+
+def case_ownership(case, R):
+    from vlib.core import case_rng, case_hash
+    rng = case_rng(case['seed'], PROPERTY, case['idx'])
+    summary = []
+    for trial in range(3):
+        shape = ['ellipsoid-default', 'ellipsoid-gl', 'sphere'][int(rng.integers(3))]
+        matrix = draw_iso(rng) if (shape == 'sphere' or rng.random() < 0.4) else draw_cubic(rng, False)
+        prec = None if (shape == 'sphere' or rng.random() < 0.5) else (draw_iso(rng) if rng.random() < 0.5 else draw_cubic(rng, False))
+        how = int(rng.integers(6))
+        eclass = 'dil' if shape == 'sphere' else ['dil', 'diag', 'diag', 'full'][int(rng.integers(4))]
+        r0 = _loguni(rng, 5e-10, 5e-8)
+        r = np.array([r0, r0, r0]) if shape == 'sphere' else r0 * np.array([1.0, float(rng.uniform(1, 3)), float(rng.uniform(1, 4))])
+        V = 4 * np.pi / 3 * float(np.prod(r))
+        c11, c12, c44 = stiffness_constants(matrix)
+
+        def U0_of(T):
+            tr = T[0, 0] + T[1, 1] + T[2, 2]
+            return 0.5 * V * (c12 * tr * tr + (c11 - c12) * float(np.sum(np.diag(T) ** 2))
+                              + 2 * c44 * 2 * float(T[0, 1] ** 2 + T[0, 2] ** 2 + T[1, 2] ** 2))
+        TA = _draw_eig(rng, eclass)
+        k = _loguni(rng, 0.3, 4.0) * float(rng.choice([-1, 1]))
+        if abs(abs(k) - 1) < 0.1:
+            k = 2.0
+        TB = k * TA
+        fA = FORMS[eclass][int(rng.integers(len(FORMS[eclass])))]
+        fB = FORMS[eclass][int(rng.integers(len(FORMS[eclass])))]
+        U0 = U0_of(TA)
+        base = {'shape': shape, 'form_A': fA, 'form_B': fB}
+        summary.append([shape, eclass, fA, fB, round(k, 3)])
+
+        # --- isolated references: one object at a time, evaluated before the next one is created
+        iso_obj = _new_object(shape, matrix, prec, how)
+        iso_obj.setEigenstrain(_as_form(TA, fA))
+        EA_iso = float(iso_obj.compute(r))
+        del iso_obj
+        iso_obj = _new_object(shape, matrix, prec, how)
+        iso_obj.setEigenstrain(_as_form(TB, fB))
+        EB_iso = float(iso_obj.compute(r))
+        del iso_obj
+
+        # --- two objects alive at the same time, plus one that never gets an eigenstrain
+        A = _new_object(shape, matrix, prec, how)
+        B = _new_object(shape, matrix, prec, how)
+        Z = _new_object(shape, matrix, prec, how)
+        # a further live object that always holds a per-axis (3-vector) eigenstrain, so that every clause below is decided
+        # by objects of this case alone (replay of the single case reproduces it, whatever ran before in the worker)
+        W = _new_object(shape, matrix, prec, how)
+        TW = _draw_eig(rng, 'dil' if shape == 'sphere' else 'diag')
+        W.setEigenstrain(_as_form(TW, 'vector'))
+        inA, inB = _as_form(TA, fA), _as_form(TB, fB)
+        keepA, keepB = np.array(inA, dtype=float).copy(), np.array(inB, dtype=float).copy()
+        if rng.random() < 0.5:
+            A.setEigenstrain(inA)
+            B.setEigenstrain(inB)
+        else:
+            B.setEigenstrain(inB)
+            A.setEigenstrain(inA)
+        order = 'A-then-B' if rng.random() < 0.5 else 'B-then-A'
+        if order == 'A-then-B':
+            EA, EB = float(A.compute(r)), float(B.compute(r))
+        else:
+            EB, EA = float(B.compute(r)), float(A.compute(r))
+        EZ = float(Z.compute(r))
+        e = abs(EB - k * k * EA) / (k * k * U0)
+        R.worst('ownership_scaling_across_objects', e)
+        R.check('eigenstrain_ownership', e <= TOL_SCALE, dict(base, clause='quadratic scaling across coexisting objects'),
+                E_A=EA, E_B=EB, k=k, ratio=EB / EA if EA else None, expected_ratio=k * k, eps_A=TA, eps_B=TB,
+                stored_A=A.params.eigenstrain, stored_B=B.params.eigenstrain)
+        for nm, Eco, Eiso, sc in (('A', EA, EA_iso, U0), ('B', EB, EB_iso, k * k * U0)):
+            e = abs(Eco - Eiso) / sc
+            R.worst('ownership_coexisting_vs_isolated', e)
+            R.check('eigenstrain_ownership', e <= TOL_ORDER, dict(base, clause='coexisting object = same specification in isolation', object=nm),
+                    coexisting=Eco, isolated=Eiso, diff_over_U0=e)
+        R.check('eigenstrain_ownership', EZ == 0.0, dict(base, clause='object without eigenstrain has zero energy'),
+                energy=EZ, stored_eigenstrain=Z.params.eigenstrain, other_objects_eigenstrains=[TA, TB, TW])
+        EW = float(W.compute(r))
+        Wf = _new_object(shape, matrix, prec, how)
+        Wf.setEigenstrain(np.array(TW, dtype=float))
+        e = abs(EW - float(Wf.compute(r))) / U0_of(TW)
+        R.check('eigenstrain_ownership', e <= TOL_ORDER, dict(base, clause='coexisting object = same specification in isolation', object='W(vector)'),
+                coexisting=EW, as_tensor_on_fresh_object=float(Wf.compute(r)), diff_over_U0=e, stored_W=W.params.eigenstrain, eps_W=TW)
+
+        # --- history on one object H, with A as bystander
+        if shape != 'sphere':
+            H = _new_object(shape, matrix, prec, how)
+            nsteps = int(rng.integers(2, 6))
+            handed = []
+            forms = []
+            last = None
+            for sidx in range(nsteps):
+                ec = ['dil', 'diag', 'full'][int(rng.integers(3))]
+                fm = FORMS[ec][int(rng.integers(len(FORMS[ec])))]
+                T = _draw_eig(rng, ec)
+                arg = _as_form(T, fm)
+                if isinstance(arg, np.ndarray):
+                    handed.append((fm, sidx, arg, arg.copy()))
+                H.setEigenstrain(arg)
+                forms.append(fm)
+                last = T
+            EH = float(H.compute(r))
+            F = _new_object(shape, matrix, prec, how)
+            F.setEigenstrain(np.array(last, dtype=float))
+            EF_ = float(F.compute(r))
+            U0l = U0_of(last)
+            stored_ok = bool(np.array_equal(np.asarray(H.params.eigenstrain, dtype=float), last))
+            e = abs(EH - EF_) / U0l
+            R.worst('history_vs_fresh', e)
+            R.check('eigenstrain_history', e <= TOL_ORDER,
+                    {'shape': shape, 'clause': 'energy = fresh object with the last specification', 'last_form': forms[-1],
+                     'previous_form': forms[-2], 'stored_tensor_matches_last_specification': stored_ok},
+                    history=forms, after_history=EH, fresh=EF_, diff_over_U0=e, stored=H.params.eigenstrain, last_specification=last)
+            for fm, sidx, arr, orig in handed:
+                R.check('eigenstrain_history', np.array_equal(arr, orig),
+                        {'shape': shape, 'clause': 'caller array unmodified', 'form': fm,
+                         'next_form': forms[sidx + 1] if sidx + 1 < len(forms) else 'none'},
+                        handed_in=orig, now=arr, history=forms, step=sidx)
+            # bystander: A was not touched by any of the calls on H / F
+            EA2 = float(A.compute(r))
+            e = abs(EA2 - EA) / U0
+            R.check('eigenstrain_ownership', e <= TOL_ORDER, dict(base, clause='bystander energy unchanged by calls on another object',
+                                                                   other_history_first_form=forms[0]),
+                    before=EA, after=EA2, diff_over_U0=e, stored_A=A.params.eigenstrain, eps_A=TA)
+        for nm, arr, orig in (('A', inA, keepA), ('B', inB, keepB)):
+            if isinstance(arr, np.ndarray):
+                R.check('eigenstrain_history', np.array_equal(arr, orig),
+                        {'shape': shape, 'clause': 'caller array unmodified', 'form': fA if nm == 'A' else fB, 'next_form': 'none'},
+                        handed_in=orig, now=arr)
+    R.info['trials'] = summary
+    R.set_nontrivial(True, case_hash({'trials': summary, 'n': case['n']}))
+
+
 # ------------------------------------------------------------------------------------------------ dispatch
 def run_case(case, R):
     kind = case['kind']
@@ -923,6 +1106,8 @@ def run_case(case, R):
         return case_tensor(case, R)
     if kind == 'eqar':
         return case_eqar(case, R)
+    if kind == 'ownership':
+        return case_ownership(case, R)
     raise ValueError(kind)
 
 
